@@ -286,6 +286,21 @@ func (fr *Frame) evalModifies(cl *Clause, ctx *evalCtx) (locs []*Loc, err error)
 				efail("elems() of non-slice")
 			}
 			locs = append(locs, &Loc{kind: locElem, ref: sArr(s.t), idx: "*", root: fr.eng.elemRoot(st.Elem()), typ: st.Elem()})
+		case e.Kind == "call" && e.Args[0].Kind == "ident" && e.Args[0].Name == "contents":
+			// contents(m): the entries (domain, values, length) of the map object m
+			x := fr.eval1(e.Args[1], ctx)
+			if x.loc != nil && x.t == "" {
+				x = fr.load(x.loc)
+			}
+			if _, ok := x.typ.Underlying().(*types.Map); !ok {
+				efail("contents() of a non-map")
+			}
+			mh := fr.mapHeaps(x.typ)
+			for _, hn := range []string{mh.dom, mh.val, mh.ln} {
+				if _, ok := fr.vc.heapSort[hn]; ok {
+					locs = append(locs, &Loc{kind: locField, ref: fr.scalar(x), root: hn, typ: types.Typ[types.Int]})
+				}
+			}
 		case e.Kind == "call" && e.Args[0].Kind == "ident" && e.Args[0].Name == "heaps":
 			// heaps(Type): every field of every object of that struct type
 			t := fr.eng.parseType(e.Args[1].String())
